@@ -154,7 +154,8 @@ ArgFrame(args) == [i \in 1..Len(args) |-> <<CASE i = 1 -> "1" [] i = 2 -> "2" []
 R(v, log) == [v |-> v, log |-> log]
 LamNames == {"select", "where", "selectMany", "takeWhile", "skipWhile", "any", "all", "first", "orderBy", "orderByDescending",
              "thenBy", "thenByDescending", "groupBy", "distinct", "accumulate", "aggregate", "indexWhere", "lastIndexWhere",
-             "sliceWhere", "splitWhere", "toDict", "join", "count", "mergeWith", "generate", "max", "min", "sum", "switch", "selectCase", "switchCase", "coalesce"}
+             "sliceWhere", "splitWhere", "toDict", "join", "count", "mergeWith", "generate", "max", "min", "sum", "switch", "selectCase", "switchCase", "coalesce",
+             "filter", "reduce", "assert"}
 
 \* which argument positions (1-based, receiver excluded) of a method are lambdas, and how many values each takes
 IsLamArg(f, i, nargs) ==
@@ -162,7 +163,7 @@ IsLamArg(f, i, nargs) ==
                 "thenByDescending", "indexWhere", "lastIndexWhere", "sliceWhere", "splitWhere", "distinct"} -> i = 1
       [] f \in {"any", "count"} -> i = 1
       [] f \in {"groupBy", "toDict"} -> TRUE
-      [] f \in {"accumulate", "aggregate"} -> i = 1
+      [] f \in {"accumulate", "aggregate", "reduce", "filter", "assert"} -> i = 1
       [] f = "join" -> i \in {2, 3}
       [] OTHER -> FALSE
 
@@ -442,6 +443,18 @@ Method(f, recv, args, kw, log) ==
    [] f = "toDict" /\ coll /\ lam1 /\ n \in {1, 2} -> ToDictLoop(xs, a1, IF n = 2 THEN a2 ELSE Null, <<>>, log)
    [] f = "join" /\ coll /\ n = 3 /\ IsColl(a1) /\ a2[1] = "lam" /\ a3[1] = "lam" -> JoinLoop(xs, a1[2], a2, a3, <<>>, log)
    [] f = "cycle" /\ coll /\ n = 0 -> R(<<"e", "endless">>, log)
+   [] f = "defaultIfEmpty" /\ coll /\ n = 1 /\ IsColl(a1) -> R(IF xs = <<>> THEN L(a1[2]) ELSE L(xs), log)
+   [] f = "filter" /\ coll /\ lam1 /\ n = 1 -> Method("where", recv, args, kw, log)
+   [] f = "reduce" /\ coll /\ lam1 -> Method("aggregate", recv, args, kw, log)
+   [] f = "zipLongest" /\ coll /\ n = 1 /\ IsColl(a1) ->
+        LET d == IF \E j \in 1..Len(kw) : kw[j][1][2] = "default" THEN kw[CHOOSE j \in 1..Len(kw) : kw[j][1][2] = "default"][2] ELSE Null
+            ys == a1[2]
+            m == IF Len(xs) > Len(ys) THEN Len(xs) ELSE Len(ys)
+        IN R(L([i \in 1..m |-> L(<<IF i <= Len(xs) THEN xs[i] ELSE d, IF i <= Len(ys) THEN ys[i] ELSE d>>)]), log)
+   [] f = "repeat" /\ n = 1 /\ isI(a1) -> R(L([i \in 1..(IF a1[2] < 0 THEN 0 ELSE a1[2]) |-> recv]), log)
+   [] f = "assert" /\ lam1 /\ n \in {1, 2} ->
+        \* recv.assert(condition [, message]): the receiver itself when the condition holds for it, an error otherwise
+        LET c == Apply(a1, <<recv>>, log) IN IF IsErr(c.v) THEN c ELSE IF Truthy(c.v) THEN R(recv, c.log) ELSE R(ErrV, c.log)
    \* ---- dicts
    [] f = "get" /\ IsDict(recv) /\ n \in {1, 2} -> LET v == DGet(recv[2], a1) IN R(IF v[1] = "missing" THEN a2 ELSE v, log)
    [] f = "set" /\ IsDict(recv) /\ n = 2 -> IF ~Hashable(a1) THEN R(UnH, log) ELSE R(<<"d", DSet(recv[2], a1, a2)>>, log)
@@ -488,6 +501,8 @@ CallFn(f, args, kw, env, log) ==
        [] f = "range" /\ n = 1 /\ isI(a1) -> R(L(RangeL(0, a1[2], 1)), log)
        [] f = "range" /\ n = 2 /\ isI(a1) /\ isI(a2) -> R(L(RangeL(a1[2], a2[2], 1)), log)
        [] f = "range" /\ n = 3 /\ isI(a1) /\ isI(a2) /\ isI(a3) -> IF a3[2] = 0 THEN R(ErrV, log) ELSE R(L(RangeL(a1[2], a2[2], a3[2])), log)
+       [] f = "isIterable" /\ n = 1 -> R(B(a1[1] \in {"l", "S", "ord"}), log)
+       [] f = "isBoolean" /\ n = 1 -> R(B(a1[1] = "b"), log)
        [] f = "isList" /\ n = 1 -> R(B(IsList(a1)), log)
        [] f = "isDict" /\ n = 1 -> R(B(IsDict(a1)), log)
        [] f = "isSet" /\ n = 1 -> R(B(IsSet(a1)), log)
@@ -594,6 +609,49 @@ Eval(e, env, log) ==
                ELSE IF f = "def" THEN
                     \* def(name, expr): a function whose body sees the scope def() was called in
                     R(<<"ctx", <<<<<<"fn:" \o e[3][1][2], <<"lam", e[3][2], env>>>>>>>> \o env>>, log)
+               ELSE IF f \in {"examine", "selectAllCases"} THEN
+                    LET a == EvalSeq(e[3], env, log, <<>>)
+                    IN IF IsErr(a.v) THEN a
+                       ELSE IF f = "examine" THEN R(L([i \in 1..Len(a.v[2]) |-> B(Truthy(a.v[2][i]))]), a.log)
+                       ELSE LET idx == SelectSeq([i \in 1..Len(a.v[2]) |-> i], LAMBDA i : Truthy(a.v[2][i]))
+                            IN R(L([k \in 1..Len(idx) |-> I(idx[k] - 1)]), a.log)
+               ELSE IF f = "generate" /\ Len(e[3]) \in {3, 4} THEN
+                    \* generate(initial, predicate, producer [, selector]): initial, producer(initial), ... while the predicate holds
+                    LET i0 == Eval(e[3][1], env, log)
+                        pred == <<"lam", e[3][2], env>>
+                        prod == <<"lam", e[3][3], env>>
+                        RECURSIVE Gen(_, _, _, _)
+                        Gen(x, lg, acc, fuel) ==
+                            IF fuel = 0 THEN R(<<"e", "endless">>, lg)
+                            ELSE LET c == Apply(pred, <<x>>, lg)
+                                 IN IF IsErr(c.v) THEN c
+                                    ELSE IF ~Truthy(c.v) THEN R(L(acc), c.log)
+                                    ELSE LET y == IF Len(e[3]) = 4 THEN Apply(<<"lam", e[3][4], env>>, <<x>>, c.log) ELSE R(x, c.log)
+                                         IN IF IsErr(y.v) THEN y
+                                            ELSE LET nx == Apply(prod, <<x>>, y.log)
+                                                 IN IF IsErr(nx.v) THEN nx ELSE Gen(nx.v, nx.log, Append(acc, y.v), fuel - 1)
+                    IN IF IsErr(i0.v) THEN i0 ELSE Gen(i0.v, i0.log, <<>>, 40)
+               ELSE IF f = "generateMany" /\ Len(e[3]) \in {2, 3} THEN
+                    \* tree traversal: a queue of nodes; producer(node) gives the children (breadth first, or depth first), optionally without repeats
+                    LET i0 == Eval(e[3][1], env, log)
+                        prod == <<"lam", e[3][2], env>>
+                        flag(name) == \E j \in 1..Len(e[4]) : e[4][j][1] = name /\ e[4][j][2] = <<"const", <<"b", 1>>>>
+                        RECURSIVE GM(_, _, _, _, _)
+                        GM(queue, seen, lg, acc, fuel) ==
+                            IF queue = <<>> THEN R(L(acc), lg)
+                            ELSE IF fuel = 0 THEN R(<<"e", "endless">>, lg)
+                            ELSE LET x == Head(queue)
+                                 IN IF flag("decycle") /\ Member(x, seen) THEN GM(Tail(queue), seen, lg, acc, fuel)
+                                    ELSE IF flag("decycle") /\ ~Hashable(x) THEN R(UnH, lg)
+                                    ELSE LET y == IF Len(e[3]) = 3 THEN Apply(<<"lam", e[3][3], env>>, <<x>>, lg) ELSE R(x, lg)
+                                         IN IF IsErr(y.v) THEN y
+                                            ELSE LET ch == Apply(prod, <<x>>, y.log)
+                                                 IN IF IsErr(ch.v) THEN ch
+                                                    ELSE LET cf == Finish(ch.v, ch.log)
+                                                         IN IF IsErr(cf.v) THEN cf ELSE IF ~IsColl(cf.v) THEN R(ErrV, cf.log)
+                                                            ELSE GM(IF flag("depthFirst") THEN cf.v[2] \o Tail(queue) ELSE Tail(queue) \o cf.v[2],
+                                                                    Append(seen, x), cf.log, Append(acc, y.v), fuel - 1)
+                    IN IF IsErr(i0.v) THEN i0 ELSE GM(<<i0.v>>, <<>>, i0.log, <<>>, 40)
                ELSE IF f \in {"switch", "selectCase", "coalesce", "switchCase"} THEN
                     (IF f = "coalesce" THEN
                         LET RECURSIVE Co(_, _)
